@@ -37,6 +37,7 @@ class FIXTester:
         self.registered_orders = {}
         self.schema = schema
         self._order_id = 0
+        self._order_ids = {}
         self._exec_id = 10000
         self.conn_init = connection
         self.conn_accept = None
@@ -176,6 +177,13 @@ class FIXTester:
             if index is not None:
                 break
 
+        if (
+            self.conn_accept.connection_state
+            <= ConnectionState.DISCONNECTED_BROKEN_CONN
+        ):
+            # acceptor closed the socket, initiator must see it (as EOF on read)
+            await self.conn_init.disconnect(ConnectionState.DISCONNECTED_BROKEN_CONN)
+
     async def reply(self, msg: FIXMessage):
         """Manually reply to the initiator with arbitrary FIXMessage.
 
@@ -206,6 +214,15 @@ class FIXTester:
     def _next_order_id(self) -> int:
         self._order_id += 1
         return self._order_id
+
+    def _get_order_id(self, order: FIXNewOrderSingle):
+        """OrderID is stable for all reports of the order."""
+        if order.order_id is not None:
+            return order.order_id
+        root = order.clord_id_root
+        if root not in self._order_ids:
+            self._order_ids[root] = self._next_order_id()
+        return self._order_ids[root]
 
     def _next_exec_id(self) -> int:
         self._exec_id += 1
@@ -270,7 +287,8 @@ class FIXTester:
         orig_clord_id = cxl_req[FTag.OrigClOrdID]
 
         m = FIXMessage(FMsg.ORDERCANCELREJECT)
-        m[37] = 0
+        order = self.registered_orders.get(clord_id)
+        m[37] = self._get_order_id(order) if order is not None else "NONE"
         m[11] = clord_id
         m[41] = orig_clord_id
         m[39] = ord_status
@@ -328,10 +346,7 @@ class FIXTester:
         assert clord_id
         m[FTag.ClOrdID] = clord_id
 
-        if order.order_id is None:
-            order_id = self._next_order_id()
-        else:
-            order_id = order.order_id
+        order_id = self._get_order_id(order)
 
         m[FTag.OrderID] = order_id
         m[FTag.ExecID] = self._next_exec_id()
